@@ -69,7 +69,7 @@ PROPS = {
 },
     "C02": {
         "lean_modules": ["InTotoModel.Props.C02", "InTotoModel.Props.NonVacuity"],
-        "claim": "verify = ok implies, for every step, max(1,threshold) distinct key ids that are in the step's pubkeys, in the key table, and have a file <step>.<prefix8>.link carrying a signature of that id valid under that key; evidence of unlisted keys and files filed under a prefix none of their signatures carries never count. Lean theorems (induction over the directory listing and the link tables); end-to-end fault injection on the real code.",
+        "claim": "verify = ok implies that the step names are pairwise distinct (a second step of a name is an error since fix c94147d; the model's stage 4 mirrors it, so the main theorem needs no hypothesis on names any more) and, for every step, max(1,threshold) distinct key ids that are in the step's pubkeys, in the key table, and have a file <step>.<prefix8>.link carrying a signature of that id valid under that key; evidence of unlisted keys and files filed under a prefix none of their signatures carries never count. Lean theorems (induction over the directory listing and the link tables); end-to-end fault injection on the real code.",
         "level_note": "Trusted: Lean kernel; hypotheses stated in the theorem: distinct step names, key table files keys under their own id (C12), glob-safe step names.",
         "technique": "Lean 4 theorems about an executable model + model/implementation correspondence check (differential run with property oracle)",
         "rule": "cases = end-to-end scenarios: a valid layout + link directory (real keys of every scheme, real signatures, optional sub-layouts and inspections) materialised in a scratch directory, usually with one injected fault whose effect is known by construction; ops = verify(scenario with constructed signature validity, observed inspection outcomes) run through the real in_toto_verify with a pinned clock; the model is evaluated under two opposite hash-map iteration orders; distinct = distinct scenario; all are non-trivial (they get past argument parsing into stage 1)",
